@@ -91,8 +91,8 @@ class ManualSuite(Suite):
         lines.append("end")
         return {"id": 0, "lines": lines}
 
-    def exhaustive_small(self, limit):
-        """all op sequences of length 4..5 over a tiny alphabet (equal deadlines, one reused id): small-scope sweep"""
+    def exhaustive_small(self, depth, limit):
+        """all op sequences of the given length over a tiny alphabet (equal deadlines, one reused id): small-scope sweep"""
         alpha = ["sleep 5 1", "sleep 5 2", "sleep 3 1", "cancel 1", "cancel 2", "ge 4", "drain 5", "remove 1"]
         out = []
 
@@ -104,17 +104,19 @@ class ManualSuite(Suite):
                 return
             for a in alpha:
                 rec(prefix + [a], depth - 1)
-        rec([], 4)
+        rec([], depth)
         return out
 
     def gen_cases(self, rng, tier):
-        n = 900 if tier == "quick" else 26000
-        nbig = 40 if tier == "quick" else 600
+        n = 900 if tier == "quick" else 280000
+        nbig = 40 if tier == "quick" else 6000
         cases = [self.gen_case(rng) for _ in range(n)]
         cases += [self.gen_case(rng, big=True) for _ in range(nbig)]
-        ex = self.exhaustive_small(8 ** 4)
         if tier == "quick":
+            ex = self.exhaustive_small(4, 8 ** 4)
             ex = [ex[i] for i in sorted(rng.sample(range(len(ex)), 300))]
+        else:
+            ex = self.exhaustive_small(4, 8 ** 4) + self.exhaustive_small(5, 8 ** 5)
         return cases + ex
 
     # ---------------------------------------------------------------------------------------- oracle
@@ -380,6 +382,184 @@ class ManualSuite(Suite):
         return st
 
 
+class RunSuite(Suite):
+    """scheduler::start(awaitable) in the only thread under virtual time: scripted sleeper coroutines that sleep
+    (relative, absolute, past), cancel each other (plain call and co_await form, default and custom exception)"""
+    name = "start-virtual-time"
+    harness = HARNESS
+    driver = "drv_c12"
+    corpus_prefix = "c12run_"
+    chunk = 50
+    nontrivial_rule = "the scheduling thread blocked at least once and at least one sleeper was cancelled by another one"
+
+    def gen_case(self, rng):
+        nco = rng.choice([1, 2, 2, 3, 3, 4, 5, 6])
+        nid = rng.choice([1, 2, 3, 4])
+        span = rng.choice([2, 5, 9])
+        t0 = rng.choice([0, 0, 3, 10])
+        lines = ["case 0 run %d" % t0]
+        for k in range(nco):
+            acts = []
+            for j in range(rng.randint(1, 6)):
+                r = rng.random()
+                ident = rng.randint(0, nid)
+                if r < 0.45:
+                    acts.append("s%d:%d" % (rng.randint(0, span), ident))
+                elif r < 0.60:
+                    acts.append("u%d:%d" % (max(0, t0 + rng.randint(-3, 2 * span)), ident))
+                elif r < 0.75:
+                    acts.append("c%d" % ident)
+                elif r < 0.87:
+                    acts.append("a%d" % ident)
+                elif r < 0.94:
+                    acts.append("x%d:%d" % (ident, rng.randint(1, 9)))
+                else:
+                    acts.append("y%d:%d" % (ident, rng.randint(1, 9)))
+            lines.append("co " + " ".join(acts))
+        lines += ["go", "end"]
+        return {"id": 0, "lines": lines}
+
+    def gen_cases(self, rng, tier):
+        n = 500 if tier == "quick" else 150000
+        return [self.gen_case(rng) for _ in range(n)]
+
+    @staticmethod
+    def _scripts(case):
+        sc = []
+        for l in case["lines"][1:]:
+            w = l.split()
+            if w and w[0] == "co":
+                sc.append(w[1:])
+        return sc
+
+    def oracle(self, case, out):
+        msgs = []
+
+        def bad(cat, txt):
+            msgs.append("%s: %s" % (cat, txt))
+
+        go = [l for l in out if l.startswith("go")]
+        if not go:
+            if any(l.startswith("FATAL") for l in out):
+                bad("hang", " ".join(out[-1].split()[1:]))
+            else:
+                bad("protocol", "no trace")
+            return msgs
+        head, evs = parse_line(go[0])
+        scripts = self._scripts(case)
+        cancels = [[a for a in sc if a[0] in "caxy"] for sc in scripts]
+        ncancel = [0] * len(scripts)
+        sleeps = []        # dict(k, t_sched, tp, id, s_idx, w_idx, w_clock, outcome)
+        cur = {}           # coroutine -> index into sleeps
+        cs = []            # (idx, k, clock, id, result, want_outcome)
+        finished = set()
+        ret = None
+        for i, e in enumerate(evs):
+            m = re.match(r"S(\d+)@(\d+):(\d+):(\d+)$", e)
+            if m:
+                k, t, tp, ident = map(int, m.groups())
+                if k in cur:
+                    bad("once", "coroutine %d issued a sleep while another one of its sleeps is pending" % k)
+                cur[k] = len(sleeps)
+                sleeps.append({"k": k, "t": t, "tp": tp, "id": ident, "s": i, "w": None, "wc": None, "o": None})
+                continue
+            m = re.match(r"W(\d+)@(\d+)=(.*)$", e)
+            if m:
+                k, t, o = int(m.group(1)), int(m.group(2)), m.group(3)
+                if k not in cur:
+                    bad("duplicate", "coroutine %d woken (%s) without a pending sleep: a sleep completed twice" % (k, o))
+                    continue
+                sl = sleeps[cur.pop(k)]
+                sl.update(w=i, wc=t, o=o)
+                if o == "ok":
+                    if t < sl["tp"]:
+                        bad("early", "sleep until %d of coroutine %d completed at %d" % (sl["tp"], k, t))
+                    elif t != max(sl["tp"], sl["t"]):
+                        bad("late", "sleep until %d (issued at %d) of coroutine %d completed at %d although the thread was idle"
+                            % (sl["tp"], sl["t"], k, t))
+                continue
+            m = re.match(r"C(\d+)@(\d+):(\d+)=([01])$", e)
+            if m:
+                k, t, ident, r = map(int, m.groups())
+                a = cancels[k][ncancel[k]] if ncancel[k] < len(cancels[k]) else "c0"
+                ncancel[k] += 1
+                want = "exc:" + a.split(":")[1] if a[0] in "xy" else "canceled"
+                cs.append((i, k, t, ident, r, want))
+                continue
+            m = re.match(r"D(\d+)@(\d+)$", e)
+            if m:
+                finished.add(int(m.group(1)))
+                continue
+            m = re.match(r"wait:(\d+)->(\d+)$", e)
+            if m:
+                a, b = int(m.group(1)), int(m.group(2))
+                pend = [sleeps[j]["tp"] for j in cur.values()]
+                if not pend:
+                    bad("late", "the scheduling thread blocked until %d with nothing pending" % b)
+                elif b > min(pend):
+                    bad("late", "the scheduling thread blocked until %d although a sleep until %d is pending" % (b, min(pend)))
+                elif b <= a:
+                    bad("late", "the scheduling thread waits for %d at clock %d: a due sleep was not handed out" % (b, a))
+                continue
+            m = re.match(r"ret@(\d+)$", e)
+            if m:
+                ret = int(m.group(1))
+                continue
+            if e.startswith("n=") or re.match(r"\d+:\d+:[01]$", e):
+                if e.endswith(":1") and not e.startswith("n="):
+                    bad("hang", "a live entry %s is left in the scheduler after start() returned" % e)
+                continue
+            bad("protocol", "unknown event %s" % e)
+        if ret is None:
+            bad("hang", "start() did not return")
+        if cur:
+            bad("hang", "sleeps of coroutines %s never completed" % sorted(cur))
+        if finished != set(range(len(scripts))):
+            bad("hang", "coroutines %s did not finish" % sorted(set(range(len(scripts))) - finished))
+        # cancel(id) == true  <->  exactly one sleep with that id completed with that exception at that instant
+        hits = sorted((t, ident, want) for (_, _, t, ident, r, want) in cs if r == 1)
+        woken = sorted((sl["wc"], sl["id"], sl["o"]) for sl in sleeps if sl["o"] not in (None, "ok"))
+        if hits != woken:
+            bad("cancel-count", "successful cancels (clock,id,exception) %s do not match the cancelled sleeps %s" % (hits, woken))
+        # cancel(id) == false although a sleep with that id was pending and stayed pending beyond that instant
+        for (i, k, t, ident, r, want) in cs:
+            if r == 0:
+                for sl in sleeps:
+                    if sl["id"] == ident and sl["s"] < i and (sl["w"] is None or (sl["w"] > i and sl["wc"] > t)):
+                        bad("cancel-miss", "cancel(%d) at %d reported false although coroutine %d sleeps on that identifier until %s"
+                            % (ident, t, sl["k"], sl["tp"]))
+                        break
+        return msgs
+
+    def nontrivial(self, case, out):
+        l = " ".join(out)
+        return "wait:" in l and ("=canceled" in l or "=exc:" in l)
+
+    def stats(self, cases, outs):
+        st = {"coroutines": 0, "sleeps": 0, "woken_ok": 0, "woken_cancelled": 0, "cancel_true": 0, "cancel_false": 0,
+              "thread_blocked": 0, "past_time_points": 0, "max_coroutines": 0, "awaited_cancels": 0}
+        for c in cases:
+            sc = self._scripts(c)
+            st["coroutines"] += len(sc)
+            st["max_coroutines"] = max(st["max_coroutines"], len(sc))
+            st["awaited_cancels"] += sum(1 for s_ in sc for a in s_ if a[0] in "ay")
+            for l in outs.get(str(c["id"]), []):
+                if not l.startswith("go"):
+                    continue
+                for e in l.split()[2:]:
+                    if e[0] == "S":
+                        st["sleeps"] += 1
+                        m = re.match(r"S\d+@(\d+):(\d+):", e)
+                        st["past_time_points"] += int(m.group(2)) <= int(m.group(1))
+                    elif e[0] == "W":
+                        st["woken_ok" if e.endswith("=ok") else "woken_cancelled"] += 1
+                    elif e[0] == "C":
+                        st["cancel_true" if e.endswith("=1") else "cancel_false"] += 1
+                    elif e.startswith("wait:"):
+                        st["thread_blocked"] += 1
+        return st
+
+
 class C12(Spec):
     pid = "C12"
     lean_modules = ["CoclsModel.Props.C12"]
@@ -412,7 +592,7 @@ class C12(Spec):
                    "time points and identifiers are modelled as unbounded naturals (no clock overflow)"]
 
     def suites(self):
-        return [ManualSuite()]
+        return [ManualSuite(), RunSuite()]
 
 
 SPEC = C12()
